@@ -74,7 +74,7 @@ PROPS = {
     'C01': dict(
         props_file='Props/C01.v',
         components=['c01'],
-        comp_names={14: 'candidate loop: real main loop with scripted peers (configurations with non-voters)', 1: 'election scripts on a real cluster vs the composed cluster model (every RequestVote held twice: request and answer released by the script)', 6: 'node sequence incl. candidates (TimeoutNow) and electSelf', 1001: 'cluster churn histories', 1002: 'election races with held requests/responses', 1003: 'stale grants template'},
+        comp_names={14: 'candidate loop: real main loop with scripted peers (configurations with non-voters)', 1401: 'candidate loop with a stable store that fails inside persistVote (nil vote channel)', 1: 'election scripts on a real cluster vs the composed cluster model (every RequestVote held twice: request and answer released by the script)', 6: 'node sequence incl. candidates (TimeoutNow) and electSelf', 1001: 'cluster churn histories', 1002: 'election races with held requests/responses', 1003: 'stale grants template'},
         rule='(0) composed-model tie: 2-5 real servers (all goroutines, 1h timers, pre-vote off) over a transport that holds every RequestVote call until the script delivers the request and, separately, the answer; adaptive scripts of timer firings, deliveries, lost answers, stray vote requests, restarts and injected AppendEntries; after each op role/term/vote record/last index of every server and the number of Leader transitions are diffed against Model/Cluster.v gstep; (i) node sequences over the C06 alphabet + TimeoutNow (candidate role) + follower-timeout decision, random failures/crash cuts, diffed against the model; '
              '(ii) real 3-5 server clusters (real goroutines, 1h timers, scripted network): election races with vote requests/responses held in flight and released in random order, '
              'the stale-grants template (A candidate for T with grants in flight, B wins T+1 with A\'s vote, then the grants arrive), and the general churn mix (partitions, crashes between durable writes, '
@@ -86,7 +86,7 @@ PROPS = {
     'C14': dict(
         props_file='Props/C14.v',
         components=['c14'],
-        comp_names={14: 'candidate loop: real main loop with scripted peers', 6: 'node sequences (pre-vote / vote handlers)', 1004: 'isolation and rejoin with real timers'},
+        comp_names={14: 'candidate loop: real main loop with scripted peers', 1401: 'candidate loop with a stable store that fails inside persistVote (nil vote channel)', 6: 'node sequences (pre-vote / vote handlers)', 1004: 'isolation and rejoin with real timers'},
         rule='(i) candidate sessions: one real server with its real main loop; every RequestPreVote/RequestVote call blocks until the script answers (grant / refuse / higher term / stale term / error), '
              'election timeouts forced through the hook; role, term, durable term and vote, advertised leader, transfer flag and the stable-store trace after each answer are diffed against the model of runCandidate; '
              'configurations: 3 and 5 voters, 3 voters + non-voter, single voter, self non-voter with TimeoutNow; pre-vote on/off. '
@@ -153,7 +153,7 @@ PROPS = {
     'C13': dict(
         props_file='Props/C13.v',
         components=['c13'],
-        comp_names={13: 'checkLeaderLease on a real leader state', 1301: 'ValidateConfig (timing part)', 1302: 'minCheckInterval', 1005: 'leader isolated from its voter majority (real timers)', 1006: 'fault-free run (real timers)'},
+        comp_names={13: 'checkLeaderLease on a real leader state', 1301: 'ValidateConfig (timing part)', 1302: 'minCheckInterval', 1303: 'lease check interval at the minCheckInterval floor (contacts a few ms inside the lease)', 1005: 'leader isolated from its voter majority (real timers)', 1006: 'fault-free run (real timers)'},
         rule='checkLeaderLease on a real server put in Leader state with one followerReplication per peer whose lastContact is now-d, d on a grid of {0,.2,.4,.8,1.2,1.6,3,10} x lease (never within 20% of the boundary), '
              'for 7 configurations (1..5 servers, non-voters, staging, self non-voter): exhaustive up to 4 peers (5-server grid sampled in quick); compared: stepped down?, maxDiff and next interval in 20 ms buckets; '
              'ValidateConfig over 648 combinations of heartbeat/election/commit/lease; real clusters with 60 ms lease: leader cut off with fewer than a quorum (non-voters on its side), step-down delay measured against 2 x lease, '
